@@ -480,6 +480,8 @@ impl<K: KeyT, V: ValT> MapWorld<K, V> {
             Kd::Entry => self.op_entry(si, op)?,
             Kd::GetMany | Kd::GetManyKv => self.op_get_many(si, op)?,
             Kd::FillNoAlloc => self.op_fill_no_alloc(si, op)?,
+            Kd::Par => self.op_par(si, ti, op)?,
+            Kd::SerdeRoundTrip | Kd::SerdeStream => self.op_serde(si, op)?,
             other => vio!(self, "harness/bad-op", "operation {:?} is not a map operation", other),
         }
         self.touch(si, &before)
